@@ -166,6 +166,8 @@ for _m in ['parse_ipv4', 'parse_ipv6', 'parse_opaque_host', 'parse_host', 'parse
     F('url_' + _m, U + _m, cls='url', mangled=r'_ZNK?3ada3url\d+%s(B5cxx11)?E.*' % _m)
 F('url_parse_scheme_1', U + 'parse_scheme', cls='url', mangled=r'_ZN3ada3url12parse_schemeILb1EEE.*', targs='true')
 F('url_parse_scheme_0', U + 'parse_scheme', cls='url', mangled=r'_ZN3ada3url12parse_schemeILb0EEE.*', targs='false', tdefault=True)
+F('url_set_host_or_hostname_0', U + 'set_host_or_hostname', cls='url', mangled=r'_ZN3ada3url20set_host_or_hostnameILb0EEE.*', targs='false')
+F('url_set_host_or_hostname_1', U + 'set_host_or_hostname', cls='url', mangled=r'_ZN3ada3url20set_host_or_hostnameILb1EEE.*', targs='true')
 F('usp_sort', 'ada::url_search_params::sort', cls='usp')
 F('idna_ascii_map', 'ada::idna::ascii_map')
 F('idna_is_ascii_sv', 'ada::idna::is_ascii', mangled=r'_ZN3ada4idna8is_asciiESt17basic_string_viewIcSt11char_traitsIcEE')
